@@ -302,6 +302,10 @@ static void file_case(const mon_args_t *a, long idx) {
     dup2(pfd[1], 2);
     close(pfd[1]);
     alarm(120);
+    extern long mon_live_effective(void);
+    extern long mon_headers_in_use(void);
+    m4ri_mmc_cleanup();
+    long live0 = mon_live_effective(), hdr0 = mon_headers_in_use();
     mzd_t *B = is_png ? mzd_from_png(fn, 0) : mzd_from_jcf(fn, 0);
     const char *m = "HX-NULL\n";
     if (B) {
@@ -313,6 +317,15 @@ static void file_case(const mon_args_t *a, long idx) {
       }
     }
     if (write(2, m, strlen(m)) < 0) {}
+    /* whatever the reader did with the file, it must have given back everything it allocated except the returned matrix */
+    if (B) mzd_free(B);
+    m4ri_mmc_cleanup();
+    long live1 = mon_live_effective(), hdr1 = mon_headers_in_use();
+    if (live1 != live0 || hdr1 != hdr0) {
+      char lb[120];
+      snprintf(lb, sizeof lb, "HX-LEAK blocks %ld -> %ld, headers %ld -> %ld\n", live0, live1, hdr0, hdr1);
+      if (write(2, lb, strlen(lb)) < 0) {}
+    }
     _exit(0);
   }
   close(pfd[1]);
@@ -348,6 +361,7 @@ static void file_case(const mon_args_t *a, long idx) {
   } else { /* any */
     if (strstr(out, "HX-MISMATCH")) kind = "wrong-matrix";
   }
+  if (!kind && strstr(out, "HX-LEAK")) kind = "leak";
   hx_tag(aborted ? "fate_abort" : strstr(out, "HX-NULL") ? "fate_null" : "fate_matrix");
   if (kind) {
     char key[260];
